@@ -293,6 +293,18 @@ pub fn run(tier: Tier) -> i32 {
                     st.class("data-amount:complete-object");
                     ctx.record(r, st);
                 }
+                // constant data behind the prefix (a parser that looks past the prefix sees ff ff ff, 81 81 .., 82 82 .. there)
+                if max > 999 || n % 7 == 0 {
+                    for pat in [0xffu8, 0x00, 0x7f, 0x80, 0x81, 0x82, 0x1f, 0xf0] {
+                        let data = [pat; 6];
+                        for k in [3usize, 4, 6] {
+                            let r = check_len(style, n, &data[..k]);
+                            st.case(true, fnv(format!("{style}/{n}/const{pat}/{k}").as_bytes()));
+                            st.class("data-content:constant-bytes-behind-the-prefix");
+                            ctx.record(r, st);
+                        }
+                    }
+                }
                 // amounts derived from the length itself (its bytes swapped, halves, neighbours, complements): a parser
                 // must not let the amount of data behind the prefix decide how the prefix is read
                 if max > 999 {
@@ -372,7 +384,7 @@ pub fn run(tier: Tier) -> i32 {
     ];
     ctx.finish(
         stats,
-        "enumeration: every representable length of each style x trailing data {none, 1 byte, 5 pseudo-random bytes, exactly n bytes}; 19 representative lengths per style x every amount of data 0..=1100 behind the prefix plus 4095 / 4096 / 65535..65537 / 65791 / 65792 / 100000; every Tlv / Adpu length x 11 amounts derived from the length (bytes swapped +-1, high byte, low byte, half, n-1, n+1, 65535-n, n^ff, n+256); every byte string of length <= 3 through each parser. non-trivial = length >= 1 / non-empty string; distinct by (style, length, trailing) resp. (style, bytes)",
+        "enumeration: every representable length of each style x trailing data {none, 1 byte, 5 pseudo-random bytes, exactly n bytes}; 19 representative lengths per style x every amount of data 0..=1100 behind the prefix plus 4095 / 4096 / 65535..65537 / 65791 / 65792 / 100000; every length x 8 constant byte values (ff, 00, 7f, 80, 81, 82, 1f, f0) as 3 / 4 / 6 bytes of data; every Tlv / Adpu length x 11 amounts derived from the length (bytes swapped +-1, high byte, low byte, half, n-1, n+1, 65535-n, n^ff, n+256); every byte string of length <= 3 through each parser. non-trivial = length >= 1 / non-empty string; distinct by (style, length, trailing) resp. (style, bytes)",
         &["Reference prefix functions (this file) transcribe ZVT/BER length rules; lengths above a style's range are outside the property and not generated", "LLVAR strings with non-F high or non-decimal low nibbles and BER first bytes 0x80/0x83.. are only required not to panic"],
         true,
     )
